@@ -72,7 +72,7 @@ CLAIMED = {
     'C03': dict(
         text='UNBOUNDED on a fragment: for every tree - any size, any depth - of one-line plain paragraphs, fenced code blocks (` or ~, any length, any content), block quotes and single-item lists (all markers, padding 1-4; '
              'siblings separated by a blank line, two lists never adjacent siblings) the block tokenizer of the model returns on the spelled text exactly the pre-token tree '
-             'written from the tree (kinds, nesting, start lines, list attributes, loose flags), and Document(lines) - whose depth fuel is proved sufficient for the fragment - holds exactly the token tree written from the tree for every renderer\'s token sets, and the HTML renderer model writes for it exactly the HTML written directly from the tree (CommonMark layout, tight items without <p>, escaped text), also for the text given as one string; the proof composes the quote law, the list law, blank-line independence '
+             'written from the tree (kinds, nesting, start lines, list attributes, loose flags), and Document(lines) - whose depth fuel is proved sufficient for the fragment - holds exactly the token tree written from the tree for every renderer\'s token sets, and the HTML renderer model writes for it exactly the HTML written directly from the tree (CommonMark layout, tight items without <p>, escaped text), also for the text given as one string; a second unbounded fragment - tight nested bullet lists written one item per line, any size and depth - is proved the same way down to the HTML (paragraph interrupted by its sub-list, items ended by the next sibling marker); the proof composes the quote law, the list law, blank-line independence '
              'and the plain-line theorem. Beyond the fragment: kernel-checked on a finite family stated in the theorem (314 one-block trees with containers nested two deep '
              'x 48 spellings, 4356 two-block trees x 6 spellings: fences, headings, breaks, tight lists) that the pipeline model renders the spelled text to exactly '
              'the HTML written from the tree; the full grammar (inlines, ordered/loose lists, tables, HTML blocks, definitions, lazy lines, indents, depth 4) is decided '
@@ -137,7 +137,7 @@ CLAIMED = {
         text='PARTIAL. UNBOUNDED on a fragment: for every tree - any size and depth - of one-line plain paragraphs, fenced code blocks, block quotes and single-item lists, '
              'parsing the spelled text with the Markdown renderer\'s token sets (model of Document(lines)) and rendering it without a line limit gives back exactly the text '
              '(C09_fragment_round_trip; hence same meaning, fixed point, exact normal form); the two side conditions (a fence is not empty, code lines do not begin with white space) are '
-             'shown necessary by kernel evaluation and are two of the recorded findings. Beyond the fragment, proved for ALL token trees about the Gallina model of the Markdown renderer: without a line limit the fragment texts are written '
+             'shown necessary by kernel evaluation and are two of the recorded findings; the same identity is proved for tight nested bullet lists written one item per line (any size, depth, bullet, padding, indentation). Beyond these fragments, proved for ALL token trees about the Gallina model of the Markdown renderer: without a line limit the fragment texts are written '
              'verbatim with exactly one final newline; HTML blocks are reproduced verbatim; blank lines and link reference definitions are written in '
              'place; container prefixes go exactly in front of the children\'s lines (count preserved). The model is tied to the code by X-md on the 652 '
              'spec examples and generated documents x normalize_whitespace. Beyond the fragment the three clauses of the property (same meaning, idempotent, exact on '
